@@ -11,3 +11,18 @@ Open Scope N_scope.
 Theorem C15i_no_panic_conditions : np_universe shipped = true.
 Proof. vm_compute. reflexivity. Qed.
 Print Assumptions C15i_no_panic_conditions.
+
+From MTV Require Import TL.NPPost TL.NoPanic TL.Total.
+
+(* hence: on today's registry DecodeUnknownObject never panics, whatever the bytes and slice hints *)
+Theorem C15i_shipped_never_panics : forall inflate h, hints_ok shipped h = true ->
+  forall fuel bs, decode_unknown shipped inflate fuel h bs <> DPanic.
+Proof. intros inflate. apply decode_unknown_no_panic. exact C15i_no_panic_conditions. Qed.
+Print Assumptions C15i_shipped_never_panics.
+
+(* every struct of the universe with an id can be named in tl.Decode without panic *)
+Theorem C15i_shipped_named_never_panics : forall inflate fuel tid bs,
+  (match get_struct shipped tid with Some sd => s_crc sd <> None | None => True end) ->
+  decode_named shipped inflate fuel tid bs <> DPanic.
+Proof. intros inflate. apply decode_named_no_panic. exact C15i_no_panic_conditions. Qed.
+Print Assumptions C15i_shipped_named_never_panics.
